@@ -97,6 +97,10 @@ func (db *DB) compact(sourceSeg *segment) (CompactionResult, error) {
 	verifCompactionYield(db, "remove")
 	db.mu.Lock()
 	defer db.mu.Unlock()
+	// The copies of the live records have to be durable before the only other copy is removed.
+	if err := db.datalog.sync(); err != nil {
+		return cr, err
+	}
 	err = db.datalog.removeSegment(sourceSeg)
 	return cr, err
 }
